@@ -477,6 +477,30 @@ fn classify(k: u32) {
   buf.data[2] = 1u;
 }
 """),
+("switch_case_break_before_store", HDR + """
+@compute @workgroup_size(1) fn main() {
+  let a = buf.data[0];
+  var v: u32 = a + 1u;
+  switch ((buf.data[1] | 2u) & 2u) {
+    case 2u: { if ((a | 1u) != 0u) { break; } v = 7u; }
+    default: { v = a; }
+  }
+  buf.data[2] = v;
+  var w: u32 = a + 2u;
+  switch (buf.data[3] & 1u) {
+    case 0u: { break; }
+    default: { w = 9u; }
+  }
+  buf.data[4] = w;
+}
+"""),
+("dead_pointee_type_in_lowering", HDR + """
+@compute @workgroup_size(1) fn main() {
+  var m: mat2x2<f32>;
+  let p: ptr<function, vec2<f32>> = &m[1];
+  buf.data[0] = 1u;
+}
+"""),
 ("dead_pointer_type_chain", HDR + """
 fn unused_fn(p: ptr<function, vec4<i32>>) -> i32 { return (*p).x; }
 @compute @workgroup_size(1) fn main() { buf.data[0] = 1u; }
